@@ -20,6 +20,9 @@ TrModDown == /\ Ev.ev = "moddown"
                   IF Ev.kind = "QPtoP" THEN ModDownQPtoPOK(Ev.x[j], Prod(Ev.qs), Ev.ps, Col(Ev.out, j))
                   ELSE ModDownOK(Ev.x[j], Prod(Ev.ps), Ev.qs, Col(Ev.out, j))
 
+TrDecomp == /\ Ev.ev = "decomp"
+            /\ \A j \in 1..Len(Ev.x[1]) : DigitOK(Ev.qs, Ev.ps, Ev.alpha, Ev.digit, Col(Ev.x, j), Col(Ev.dq, j), Col(Ev.dp, j))
+
 TrExt == /\ Ev.ev = "extsmall"
          /\ \A j \in 1..Len(Ev.v) : ExtendSmallOK(Ev.v[j], Ev.dst, Col(Ev.out, j))
 
@@ -61,7 +64,7 @@ TrBigModUp ==
                         BNAdd(BNAdd(Ev.x, BNMul(BNFromInt(Ev.m), Ev.a)), BNMul(Ev.w1j[j], Ev.pj[j])))
 
 TraceNext == /\ l <= Len(Trace) /\ l' = l + 1
-             /\ (TrDiv \/ TrModUp \/ TrModDown \/ TrExt \/ TrBigDiv \/ TrBigModDown \/ TrBigModUp)
+             /\ (TrDiv \/ TrModUp \/ TrModDown \/ TrDecomp \/ TrExt \/ TrBigDiv \/ TrBigModDown \/ TrBigModUp)
 TraceInit == l = 1 /\ TLCSet(1, 1)
 TraceSpec == TraceInit /\ [][TraceNext]_l
 Progress == TLCSet(1, IF TLCGet(1) > l THEN TLCGet(1) ELSE l)
